@@ -247,6 +247,28 @@ def run(facts, res):
                               "indexed slice nor the staged digest" % (b.path, fmt(key, 5)), b.loc(t.line))
     res.floor("H4", "object-index insert sites", n4, 2)
 
+    # ------------------------------------------------------------------ H6: damaged items are reported, never silently truncate the scan
+    res.rule("H6", "the loops that load listed packs end only by exhaustion or by returning Err (no break / early Ok)")
+    from .. import iters
+    from .c18 import _leads_to_ok_return
+    n6 = 0
+    for name in ("datastorage::DataStorage::reload", "datastorage::DataStorage::refresh"):
+        b = facts.body(name)
+        if b is None:
+            continue
+        for fl in iters.find_flows(facts):
+            if fl.body is not b or fl.consumer != "next" or not fl.listing:
+                continue
+            n6 += 1
+            blocks = iters.loop_body_blocks(b, fl.cons_block)
+            bad = [e for e in iters.early_exits(b, fl.cons_block, blocks) if _leads_to_ok_return(b, e[1])]
+            res.instance("H6", "%s: the pack loop has no exit that ends in Ok before every listed pack was examined: %s" % (name, not bad), b.loc())
+            if bad:
+                res.violation("H6", "%s|pack-loop-truncated" % name,
+                              "%s can leave its pack loop early and still return Ok: packs listed after a damaged one are never indexed, "
+                              "so intact, causally complete commits silently disappear instead of an error being reported" % name, b.loc())
+    res.floor("H6", "pack loading loops over storage listings", n6, 2)
+
     # ------------------------------------------------------------------ H5
     parsers = {}
     for b in facts.repo_bodies():
